@@ -86,6 +86,11 @@ def _expected_target(W, name, ctx, path):
     return out
 
 
+# commands that are meant to change the configured limits, and the slots that carry them
+CONFIGURES_BOUNDS = ("set_bounds",)
+BOUNDS_CARRIERS = {("g", "_state"), ("state", "_user_bounds"), ("bounds", "_bounds")}
+
+
 def analyse(W, name, f, ctx, desc, path):
     items = []
     entry = f"{name}({desc})"
@@ -93,6 +98,25 @@ def analyse(W, name, f, ctx, desc, path):
     for _, prop, _ in vals:
         if prop:
             items.append(("prop", prop))
+    # ---- R5 the configured limits stay configured: only set_bounds touches the bounds table, and no command replaces
+    # the state object or its bounds manager (a fresh one has no limits at all)
+    if name not in CONFIGURES_BOUNDS:
+        lost = None
+        for e in path.trace:
+            if e.kind == "SET":
+                slot = (W.labels.get(e.data.get("obj")), e.data.get("field"))
+                if slot in BOUNDS_CARRIERS:
+                    lost = (e, f"{slot[0]}.{slot[1]} is replaced by {e.data.get('value')!r}")
+                    break
+            elif e.kind == "MUT" and str(e.data.get("label") or "").startswith("bounds._bounds"):
+                lost = (e, f"the bounds table is modified ({e.data.get('method')})")
+                break
+        if lost is not None:
+            items.append(("viol", "R5", f"{name}:bounds-configuration:{lost[1].split(' is ')[0].split(' (')[0]}",
+                          f"{entry}: {lost[1]} in {lost[0].site[0]}: limits configured with set_bounds are no longer enforced afterwards",
+                          [f"at {lost[0].where()} via {chain(lost[0])}", f"path decisions: {decisions_text(path)}"]))
+        else:
+            items.append(("ok", "R5", f"{entry}: the configured bounds are left alone"))
     sts = statements(path)
     if not sts:
         return items
@@ -273,6 +297,8 @@ def run(check, repo, tier):
     check.rule("R2", "every delivered G0/G1/G38.x/G92 statement is preceded by a validation of the unmasked absolute target against the axes bounds")
     check.rule("R3", "BoundManager.validate / Point.within_bounds accept exactly min <= v <= max; NaN rejected; unknown coordinates skipped (order positions enumerated)")
     check.rule("R4", "all seven bounded property names are validated by some command path; set_bounds stores only ordered pairs")
+    check.rule("R5", "the configured limits stay configured: only set_bounds modifies the bounds table; no command (teardown and context-manager exit "
+                     "included) replaces the state object, its bounds manager or the table")
     cr = CommandRun(repo, tier=tier, event_funcs=(VALIDATE,), exclude=("write",), cm_body=("pass",))
     results = cr.run(analyse)
     check.floor(not (cr.stats["commands"] < 40), f"C03: only {cr.stats['commands']} public commands analysed (floor 40)")
